@@ -280,6 +280,10 @@ func main() {
 		os.Exit(0)
 	case "racepass":
 		racePass()
+	case "c18cold":
+		var names []string
+		json.Unmarshal([]byte(os.Args[2]), &names)
+		c18ColdChild(names)
 	case "selftest":
 		out := ""
 		if len(os.Args) > 3 && os.Args[2] == "--out" {
